@@ -5,7 +5,7 @@ set -u
 PATCH="$1"; shift
 cd /verif
 if ! git -C /repo diff --quiet; then echo "/repo has uncommitted changes"; exit 2; fi
-git -C /repo apply "$PATCH" || { echo "patch does not apply"; exit 2; }
+git -C /repo apply "$(realpath "$PATCH")" || { echo "patch does not apply"; exit 2; }
 for id in "$@"; do
   out=$(VERIF_SEED=${VERIF_SEED:-1} ./check "$id" "${TIER:-quick}" 2>/dev/null)
   rc=$?
